@@ -13,7 +13,8 @@ EXPLANATION = ("Narrow claim: necessary structural conditions of the two sentenc
                "file tolerated at restart, symlink failures reported but never propagated; R11.4 start-up derives its state only from the directory "
                "listing and file metadata (no file is read, nothing else is persisted). R11.5 start table (shared with R06.3/R06.5): the previous process's current file is found under the name this naming writes to and rotated or continued, never truncated. R11.3 also: the probe deciding whether an old symlink must be removed does not follow the link (a kill can leave it dangling)."
                " R11.1 also: reopen_outputfile wraps the re-opened file in a BufWriter only on paths on which buffersize() is Some, and no third function constructs a BufWriter<File> for the log file."
-               " R11.6 (shared with R01.6/R06.4): every timestamp name opened at start or by a rotation passed the full collision check (plain file, .gz, .restart siblings), whatever a killed run left behind.")
+               " R11.6 (shared with R01.6/R06.4): every timestamp name opened at start or by a rotation passed the full collision check (plain file, .gz, .restart siblings), whatever a killed run left behind."
+               " R11.7 (shared with R08.5): a restart with append seeds current_size from the length of the existing file for both size-bearing criteria.")
 ASSUMPTIONS = ["write(2) of a completed write_all survives a process kill (page cache)", "rename(2) is atomic"]
 NOT_DECIDED = ["every quantification over crash points and the directory states they leave", "torn last line", "restart succeeding from a half-written .gz",
                "interaction with cleanup limits"]
@@ -153,6 +154,11 @@ def run(R, ctx):
     _c06.highest_is_maximum(R, ctx, ctx.body(r'^writers::file_log_writer::state::numbers::get_highest_index$'), rule='R11.5')
     # a restart after a kill finds whatever the killed run and its cleanup left behind (base file gone, .restart siblings or a .gz left): every timestamp
     # name opened at start or by a rotation passes the FULL collision check (plain, .gz, restart siblings) - table and provenance shared with R01.6 / R06.4
+    # `restarts cleanly ... with all other guarantees intact`: after a kill the restarted logger continues the current file (append) and must count the bytes
+    # the killed process left in it, for every size-bearing criterion (table of RollState::new shared with R08.5)
+    R.rule('R11.7', 'a restart with append seeds the size counter from the existing file for Size and AgeOrSize (shared with R08.5)')
+    import c08 as _c08n
+    _c08n.new_table(Relabel(R, {'R08.5': 'R11.7'}), ctx)
     R.rule('R11.6', 'restart / rotation: every timestamp name that is opened passed the full collision check (shared with R01.6/R06.4)')
     import c01 as _c01c
     _c01c.collision_rules(Relabel(R, {'R01.6': 'R11.6'}), ctx)
